@@ -84,6 +84,8 @@ class FailureMonitor(Monitor):
         self.distributions = []    # times at which an instance published DISTRIBUTION
         self.warm = False
         self.exits = {}
+        self.alive_at = {}
+        self.prev_truth_at = {}
         self.user_stops = {}       # application -> (time, idx, inc, requested on the Master)
         self.stop_watch = {}       # application -> (time of the loss, idx lost) while its stop job was in progress
 
@@ -146,6 +148,9 @@ class FailureMonitor(Monitor):
             was = self.prev_alive.get(inst.idx, False)
             if was and not inst.alive and self.warm:
                 truth = self.prev_truth.get(inst.idx, {})
+                self.alive_at[world.now] = [o.idx for o in world.instances if self.prev_alive.get(o.idx)]
+                for o in world.instances:
+                    self.prev_truth_at[(world.now, o.idx)] = dict(self.prev_truth.get(o.idx, {}))
                 # a loss while the Master is stopping an application at the request of the user
                 for app_name, (t_stop, ridx, rinc, on_master) in self.user_stops.items():
                     req = world.instances[ridx]
@@ -192,6 +197,26 @@ class FailureMonitor(Monitor):
                     truth.setdefault(namespec, []).append(inst.idx)
         for app_name, events in self.events.items():
             app = self.ref.apps[app_name]
+            if len(events) > 1 and all(e['kind'] == 'loss' for e in events) \
+                    and max(e['time'] for e in events) - min(e['time'] for e in events) <= 1.0:
+                # instances lost together (one node with several instances, a switch failure): one disturbance
+                merged = dict(events[0])
+                merged['idxs'] = [e['idx'] for e in events]
+                hosted = {n for e in events for n, st_ in self.prev_truth_at.get((e['time'], e['idx']), {}).items()
+                          if st_ in ACTIVE and self.ref.progs.get(n, {}).get('app') == app_name}
+                survivors = [o for e in events for o in self.alive_at.get(e['time'], ()) if o not in set(merged['idxs'])]
+                merged['lost'] = sorted(n for n in hosted
+                                        if not any(self.prev_truth_at.get((e['time'], o), {}).get(n) in ACTIVE
+                                                   for e in events for o in survivors))
+                merged['starting'] = sorted({n for e in events for n in e['starting']})
+                lost_idx = set(merged['idxs'])
+                merged['elsewhere'] = sorted({n for e in events for n in e['elsewhere']
+                                              if any(self.prev_truth_at.get((e2['time'], o), {}).get(n) in ACTIVE
+                                                     for e2 in events for o in self.alive_at.get(e2['time'], ())
+                                                     if o not in lost_idx)})
+                # processes that ran on several lost instances only
+                events = [merged]
+                self.flags.add('simultaneous-losses')
             if len(events) != 1:
                 self.flags.add('application-hit-several-times')
                 continue
@@ -201,7 +226,7 @@ class FailureMonitor(Monitor):
                 self.flags.add('re-distributed-after-the-disturbance')
                 continue
             crashes = [rec for rec in world.log if rec[1] == 'crash' and rec[0] >= t - 30
-                       and not (ev['kind'] == 'loss' and rec[2] == ev['idx'] and abs(rec[0] - t) <= 1)]
+                       and not (ev['kind'] == 'loss' and rec[2] in ev.get('idxs', [ev['idx']]) and abs(rec[0] - t) <= 2)]
             if crashes:
                 self.flags.add('another-loss-around')     # the repair itself may target the other lost instance
                 continue
@@ -303,6 +328,10 @@ def c06_episode_st(draw):
     for _ in range(draw(st.sampled_from([1, 1, 1, 2, 3]))):
         pos = draw(st.integers(0, len(steps) - 1))
         steps[pos].setdefault('ops', []).append(draw(op_st(config, kinds, specs)))
+    if config['n'] >= 3 and draw(st.integers(0, 9)) < 3:
+        # two instances hosting children are lost in the same second (detected in the same round)
+        pos = draw(st.integers(0, len(steps) - 1))
+        steps[pos].setdefault('ops', []).extend([['crash_host', draw(st.integers(0, 7))], ['crash_host', draw(st.integers(0, 7))]])
     if config.get('apps') and draw(st.integers(0, 9)) < 3:
         # the user stops an application on the Master and an instance hosting children is lost during the stop sequence
         pos = draw(st.integers(0, len(steps) - 6))
